@@ -50,9 +50,11 @@ structure TestIn where
   result : Result
 deriving DecidableEq, Repr
 
+/-- runs `startTestRun … stopTestRun` on the same pair of converter objects -/
 structure Input where
-  explicitStart : Bool                   -- call startTestRun first (otherwise the first startTest does)
-  tests : List TestIn
+  explicitStart : Bool                   -- call startTestRun before the first run (otherwise its first startTest does;
+                                         -- every later run is started explicitly: `_started` stays set)
+  runs : List (List TestIn)
 deriving Repr
 
 /-! ## `ExtendedToStreamDecorator` -/
@@ -149,8 +151,8 @@ def convAll : St → List TestIn → List Event
   | _, [] => []
   | s, t :: ts => (convTest s t).2 ++ convAll (convTest s t).1 ts
 
-/-- the status events between the two converters -/
-def toStream (i : Input) : List Event := convAll { gtags := [], now := none } i.tests
+/-- the status events of one run: `startTestRun` resets the tag context and the clock (`__now = None`) -/
+def toStream (tests : List TestIn) : List Event := convAll { gtags := [], now := none } tests
 
 inductive StreamEv where
   | start | stop
@@ -162,8 +164,10 @@ structure Trace where
   ext : List ExtEv             -- what the final extended TestResult sees
 deriving DecidableEq, Repr
 
+def midRun (tests : List TestIn) : List StreamEv := [.start] ++ (toStream tests).map .status ++ [.stop]
+
 def model (i : Input) : Trace :=
-  { mid := [.start] ++ (toStream i).map .status ++ [.stop]
-    ext := toExtended (toStream i) }
+  { mid := (i.runs.map midRun).flatten
+    ext := (i.runs.map fun tests => toExtended (toStream tests)).flatten }
 
 end TTV.Stream.Convert
